@@ -29,12 +29,28 @@ CLAIMED['C19'] = dict(
     text='Machine-checked proof (Lean 4): for every list of (field name, text) pairs of arbitrary characters except a raw CR, decoding the FDF text produced by the model of _create_fdf under the PDF literal-string syntax returns exactly those pairs (induction on the characters; negative control: without escaping it is false); the forms filled are exactly the sections needing filing, once each, ordered by (jurisdiction, sequence number), stably; length-limited and choice fields never truncate or substitute. The model is compared byte for byte with the real _create_fdf / fill on generated inputs; the statement is checked by filling solved real returns (adversarial text in every string input) with pdftk replaced by a recorder and decoding the FDFs with an independent decoder.',
     note='Trusted: Lean kernel; Ini/Pdf models validated differentially; pdftk reads FDF strings per ISO 32000 7.3.4.2; text is printable ASCII.',
     technique='Lean 4 round-trip proof by induction + differential correspondence', ref='7/C19')
+CLAIMED['C11'] = dict(
+    text='Machine-checked proof (Lean 4), for ALL strings, all Unicode character tables and all float semantics of the stated shape: whatever InputStore[...] returns passed the input class own validation, equals its value(), has the declared dynamic type and (numeric) is finite; rejected text is reported invalid; missing iff not supplied; no conversion error escapes; exact acceptance sets of Boolean / SSN / enumeration / regex inputs (verified derivative matcher for the two shipped regexes). The model of the seven input classes and the store gate is compared with the real classes on adversarial strings (12k quick / 1.1M thorough incl. every code point) and the statement is evaluated on the real InputStore by file and by prompt route.',
+    note='Trusted: Lean kernel; model of inputs.py validated differentially; character classes from the running interpreter (regenerated each run).',
+    technique='Lean 4 proofs over all strings (per-class characterisations) + differential correspondence', ref='7/C11')
+CLAIMED['C12'] = dict(
+    text='Machine-checked proof (Lean 4): the model of TypedField.value / FloatField.value lets through only values of exactly the declared type (bool is not int, int is not float, subclasses rejected), maps None / blank text to the type empty value, rejects everything else with TypeError, and rounds money after the type check (rounded values are fixed points of rounding, given idempotence of round, proved for the F64 model). With C03 (nothing is stored on error; every stored value is the wrapper output) this gives the property for every solution. Compared with the real Field classes on stub definitions returning every kind of Python value; all values of real returns are audited.',
+    note='Trusted: Lean kernel; model of fields.py validated differentially; idempotence of round(x, n) on binary64 proved in Proofs/F64Lemmas under its stated range.',
+    technique='Lean 4 case analysis on the typed-field wrapper + differential correspondence', ref='7/C12')
+CLAIMED['C17'] = dict(
+    text='Reflection proof: the catalogue of every year (classes, instances, declared year, names, metadata, input/line names, status-keyed threshold tables) is REGENERATED from the working tree on every run and every consistency obligation (184) is closed by decide +kernel in Lean over Nat-coded sorted tables, with soundness theorems giving each check its meaning (e.g. thresholdsTotal_sound: for each of the five statuses exactly one key matches and Form.threshold first-match returns it). list-forms / list-form-inputs output is parsed back with the real configparser for every form and instance.',
+    note='Trusted: Lean kernel; tools/catalogue.py introspection and the Lean text generator (cross-checked against an independent oracle over the real objects on every run). 2021/2022 hard-code status amounts in code (no tables), covered via the translated programs instead.',
+    technique='regenerated tables + decide +kernel reflection with proved-sound checkers', ref='7/C17')
+CLAIMED['C18'] = dict(
+    text='Reflection proof: all ~1,800 PDF mappings and the field trees of the 39 bundled templates (names, kinds, /MaxLen, on-states, accessibility text with parsed line labels) are REGENERATED on every run and every obligation (507: targets exist, no field driven twice, kinds, length limits, export values, choice lists, labels, mapped lines exist, fileable forms complete, exclusive groups at most one on for every value of the driving line) is closed by decide +kernel with proved-sound checkers. The same checks are evaluated independently on the real objects.',
+    note='Trusted: Lean kernel; own PDF/XFA extractor (two routes cross-checked: AcroForm chain vs XFA tree, plus the pdftk listings in the form sources) and label grammar; two documented template-text errata excluded from the label check; one recorded naming finding (Schedule B 7b).',
+    technique='regenerated tables + decide +kernel reflection with proved-sound checkers', ref='7/C18')
 NOT_YET = {}
 ALL = [f'C{i:02d}' for i in range(1, 21)]
 
 manifest = {
     'version': 1,
-    'setup_cmd': 'cd lean && lake build 2>&1 | tail -5',
+    'setup_cmd': 'PYTHONDONTWRITEBYTECODE=1 HABUTAX_VERIF=1 /venv/bin/python -W ignore tools/harness/generate.py && cd lean && lake build 2>&1 | tail -5',
     'hooks': {
         'guard': 'HABUTAX_VERIF',
         'enable': 'set HABUTAX_VERIF=1 in the environment before importing habutax (the checks do this themselves); a harness then installs habutax.solver._verif_schedule',
